@@ -32,15 +32,16 @@ ObsUe(x) == [rg |-> [g \in DOMAIN x.rg |-> [rtype |-> x.rg[g].rtype, reserved |-
                                             ucost |-> x.rg[g].ucost, reqnum |-> x.rg[g].reqnum]],
              notify |-> x.notify,
              recs |-> [i \in 1..Len(x.recs) |-> ObsRec(x.recs[i])],
-             cdr |-> x.cdr]
+             cdr |-> x.cdr, lim |-> x.lim]
 ObsSt(s) == [acct |-> [k \in DOMAIN s.acct |-> [quota |-> s.acct[k].quota, cost |-> s.acct[k].costn]],
              ue |-> [u \in {v \in DOMAIN s.ue : s.ue[v].known} |-> ObsUe(s.ue[u])],
-             lrsn |-> s.lrsn]
+             lrsn |-> s.lrsn, cfg |-> s.cfg]
 ConvUsage(us) == [i \in 1..Len(us) |->
                     [rg |-> us[i].rg, req |-> us[i].req,
                      conts |-> [j \in 1..Len(us[i].conts) |->
                                  [m |-> us[i].conts[j].m, vol |-> us[i].conts[j].vol, id |-> us[i].conts[j].c]]]]
-ConvMui(m) == [i \in 1..Len(m) |-> [rg |-> m[i].rg, granted |-> m[i].granted, fui |-> m[i].fui, trig |-> m[i].trig]]
+ConvMui(m) == [i \in 1..Len(m) |-> [rg |-> m[i].rg, granted |-> m[i].granted, fui |-> m[i].fui, trig |-> m[i].trig,
+                                     vt |-> m[i].vt, thr |-> m[i].thr]]
 
 V(prop, clause, sit) == [prop |-> prop, clause |-> clause, trace |-> Ev.trace, step |-> Ev.seq, sit |-> sit]
 D(what) == [trace |-> Ev.trace, step |-> Ev.seq, action |-> Ev.action, what |-> what]
@@ -147,7 +148,7 @@ RespObs == [status |-> Ev.result.status, ref |-> IF "ref" \in DOMAIN Ev.result T
 DivOf(exp, obs, resp) ==
   IF exp.st = obs /\ exp.resp.status = resp.status /\ exp.resp.mui = resp.mui /\ exp.resp.ref = resp.ref THEN {}
   ELSE {D([acct |-> exp.st.acct # obs.acct, lrsn |-> exp.st.lrsn # obs.lrsn,
-           ue |-> exp.st.ue # obs.ue, status |-> <<exp.resp.status, resp.status>>,
+           ue |-> exp.st.ue # obs.ue, cfg |-> exp.st.cfg # obs.cfg, status |-> <<exp.resp.status, resp.status>>,
            mui |-> exp.resp.mui # resp.mui, ref |-> exp.resp.ref # resp.ref])}
 
 Reset ==
@@ -290,7 +291,7 @@ Finish ==
   /\ UNCHANGED <<pre, h, viol, div, meta>>
 
 TInit == /\ l = 1 /\ viol = {} /\ div = {}
-         /\ pre = [acct |-> EmptyFn, ue |-> EmptyFn, lrsn |-> 0]
+         /\ pre = [acct |-> EmptyFn, ue |-> EmptyFn, lrsn |-> 0, cfg |-> DefaultCfg]
          /\ h = HInit(EmptyFn)
          /\ meta = [wb |-> FALSE, supis |-> EmptyFn, subs |-> EmptyFn, url |-> "", sink |-> ""]
 
